@@ -25,6 +25,7 @@ type opStep struct {
 	Anchor       oracle.Anchor
 	AnchoredType string
 	nextU, nextR *gen.Key
+	PostBuild    func(h *histCtx, s *opStep) // runs after the request was assembled (e.g. to show the same JWS to the stack in another operation first)
 }
 
 // hostileValidators refuse every anchor origin and every time window (and count how often they are asked).
@@ -49,6 +50,8 @@ type histCtx struct {
 	code    uint64
 	keyType string
 	hasIETF bool
+	st      *sut.Stack // the stack the history runs on (set by the history runner)
+	c       *fw.Case
 }
 
 func histProto(withIETF bool) protocol.Protocol {
@@ -378,6 +381,18 @@ var failClasses = []failClass{
 		s.Facts.Patches = s.Spec.Patches
 		s.Facts.DeltaValid = h.hasIETF // without ietf enabled the delta is invalid instead: same observable for create/recover, refusal for update
 	}},
+	{"patches-inapplicable-before-replace", "cur", func(h *histCtx, s *opStep) {
+		// the failing patch is followed by patches that would succeed on their own, the last one discarding everything before it:
+		// the delta as a whole is still inapplicable
+		s.Spec.Patches = []interface{}{gen.PJSON(map[string]interface{}{"op": fw.Pick(h.r, []string{"remove", "test"}), "path": "/ghost" + fmt.Sprint(h.r.Intn(100)), "value": 1}),
+			gen.PAddServices(gen.RandService(h.r, "svcA")),
+			gen.PReplace([]interface{}{gen.RandDocKey(h.r, "rk1")}, []interface{}{gen.RandService(h.r, "rs1")})}
+		if h.r.Bool() {
+			s.Spec.Patches = append(s.Spec.Patches, gen.PAddKeys(gen.RandDocKey(h.r, "after1")))
+		}
+		s.Facts.Patches = s.Spec.Patches
+		s.Facts.DeltaValid = h.hasIETF
+	}},
 	{"recovery-commitment-reuses-signing-key", "r", func(h *histCtx, s *opStep) {
 		s.Spec.RecoveryCommitment = s.Spec.Signer.Commitment(h.code)
 		s.Facts.RecoveryCommitment = s.Spec.RecoveryCommitment
@@ -549,6 +564,9 @@ func planStep(h *histCtx, typ byte, class string, prevTime uint64, modelDoc map[
 	if typ == 'c' && h.ch.Suffix == "" {
 		h.ch.Suffix = s.Built.Suffix
 	}
+	if s.PostBuild != nil {
+		s.PostBuild(h, s)
+	}
 	return s
 }
 
@@ -676,6 +694,9 @@ func runHistory(c *fw.Case, plan []planEntry, keyType string, code uint64, withI
 // histStackFactory builds the stack a history runs on (C09 swaps in stacks with a hostile time validator).
 var histStackFactory = sut.SharedStack
 
+// histNoRequestParse is set by cases that count calls to request-time validators: the runner then never parses a request in non-batch mode itself.
+var histNoRequestParse bool
+
 // runHistoryProto is runHistory with an explicit protocol configuration.
 func runHistoryProto(c *fw.Case, plan []planEntry, keyType string, code uint64, proto protocol.Protocol, withIETF bool, mode string) {
 	r := c.Rng
@@ -685,7 +706,9 @@ func runHistoryProto(c *fw.Case, plan []planEntry, keyType string, code uint64, 
 	// anchored operations are applied in batch mode: request-time validators (anchor origin, server time) have no say.
 	// A fifth of the histories runs on a stack whose validators refuse everything; outcomes must be the same.
 	hostile := &hostileValidators{}
+	hostileStack := false
 	if r.Chance(1, 5) {
+		hostileStack = true
 		st = sut.NewStack(proto, operationparser.WithAnchorOriginValidator(hostile), operationparser.WithAnchorTimeValidator(hostileTime{hostile}))
 		c.Count("histories-with-refusing-validators", 1)
 	}
@@ -694,7 +717,7 @@ func runHistoryProto(c *fw.Case, plan []planEntry, keyType string, code uint64, 
 			c.Failf("applier-consults-request-time-validators", map[string]interface{}{"calls": hostile.calls}, "applying anchored operations consulted request-time validators %d times", hostile.calls)
 		}
 	}()
-	h := &histCtx{r: r, proto: proto, code: code, keyType: keyType, hasIETF: withIETF}
+	h := &histCtx{r: r, proto: proto, code: code, keyType: keyType, hasIETF: withIETF, st: st, c: c}
 	pubs, unpubs := randOpList(r), randOpList(r)
 	actual := &protocol.ResolutionModel{PublishedOperations: pubs, UnpublishedOperations: unpubs}
 	model := &oracle.State{}
@@ -756,6 +779,30 @@ func runHistoryProto(c *fw.Case, plan []planEntry, keyType string, code uint64, 
 				if d := compareState(got, want, pubs, unpubs); d != "" {
 					w["diff"] = d
 					c.Failf("state-mismatch:"+strings.SplitN(d, ":", 2)[0], w, "step %d (%s %s, expected %s): %s", i, s.AnchoredType, s.Class, outcome, d)
+					return
+				}
+			}
+		}
+		// the same operation handed to the same applier once more, against the same previous state, must be judged
+		// the same way (nothing remembered from the first call - parsed signed data, verified signatures, composed
+		// documents - may decide the second); refused operations are always repeated, accepted ones one time in three
+		if mode != "C12" && (!accepted || r.Chance(1, 3)) {
+			if r.Bool() && !hostileStack && !histNoRequestParse {
+				// in between, the parser also sees the request in the other parsing mode
+				st.Parser.Parse("did:sidetree", s.Built.Request)
+			}
+			got2, err2 := st.Applier.Apply(anchoredOf(s, suffix), actual)
+			c.Count("repeated-applications", 1)
+			c.Evals(1)
+			if (err2 == nil) != (err == nil) {
+				w["second_err"] = fmt.Sprint(err2)
+				c.Failf("repeated-application-differs:"+s.Class, w, "step %d (%s %s): first application returned err=%v, the identical second one err=%v", i, s.AnchoredType, s.Class, err, err2)
+				return
+			}
+			if err2 == nil {
+				if d := compareState(got2, want, pubs, unpubs); d != "" {
+					w["diff"] = d
+					c.Failf("repeated-application-state-differs", w, "step %d (%s %s): the identical second application yields another state: %s", i, s.AnchoredType, s.Class, d)
 					return
 				}
 			}
